@@ -3,7 +3,7 @@
    sequence of API calls per thread, both _preferWriters settings, timeouts firing at any decision). *)
 From Coq Require Import List Arith Bool.
 Import ListNotations.
-From Muscle Require Import Conc.RwMutexModel Conc.RwMutexProofs Conc.RwMutexInv Conc.RwMutexThms Conc.RwMutexLive Conc.RwMutexExtras Conc.RwMutexCheck.
+From Muscle Require Import Conc.RwMutexModel Conc.RwMutexProofs Conc.RwMutexInv Conc.RwMutexThms Conc.RwMutexLive Conc.RwMutexExtras Conc.RwMutexCheck Conc.RwMutexProgress.
 
 (* The inductive invariant: read mode / write mode of the table + every thread's code position agrees with the tables. *)
 Theorem C18_invariant : forall pref s, reachable pref s -> inv s.
@@ -144,6 +144,16 @@ Theorem C18_rw_handoff_admits_reader : forall pref s, reachable pref s -> g_exec
   exists g' l' o, step pref k CRun (s_g s) (s_l s k) = Some (g', l', o) /\ find k (g_exec g') = Some (mkEnt 1 0) /\ memk k (g_wr g') = false.
 Proof. exact handoff_admits_reader. Qed.
 Print Assumptions C18_rw_handoff_admits_reader.
+
+(* a free lock with waiters is never a dead end: some waiting thread t, by at most two of its own transitions (return from
+   Wait(), critical section), holds the lock -- or, if its timeout had fired, has left the queue (and passed the wake-up on,
+   so the statement applies again to the shorter queue) *)
+Theorem C18_rw_free_lock_progress : forall pref s, reachable pref s -> g_exec (s_g s) = [] ->
+  (g_wr (s_g s) <> [] \/ g_ww (s_g s) <> []) ->
+  exists t s', (run pref [R t] s = Some s' \/ run pref [R t; R t] s = Some s') /\
+               (find t (g_exec (s_g s')) <> None \/ nwait (s_g s') < nwait (s_g s)).
+Proof. exact free_lock_progress. Qed.
+Print Assumptions C18_rw_free_lock_progress.
 
 (* the model's lists are faithful images of the Hashtables: no thread appears twice in a table *)
 Theorem C18_rw_tables_nodup : forall pref s, reachable pref s -> nodup (s_g s).
